@@ -117,7 +117,7 @@ def _extract_call(message: str) -> Optional[str]:
 
 def _run_worker(file: str, func: str, cond: float, path: float) -> dict:
     t0 = time.time()
-    hard = cond * 1.5 + 60
+    hard = cond * 3 + 120  # wall-clock guard only (cond is CPU time); generous so that a loaded box does not turn into a spurious inconclusive
     try:
         p = subprocess.run(
             [PY, "-m", "lib.xh_worker", file, func, "--cond", str(cond), "--path", str(path)],
